@@ -14,6 +14,7 @@ turned into a term of the small wrapper language of lean/AnsiModel/Wrap.lean:
     strFwd    return self._s.T(a, b, …)        (AnsiString: _s is the str)
     strLen    return len(self._s)
     caseMap   if inplace: obj = self else: obj = self.copy(); obj._s = obj._s.T(); return obj
+    newargsInner  return (self._s,)
     other     anything else: only a digest of the normalised AST is kept
 
 Calls are *bound here* against the signature of the target method (positional, `*args`, keyword),
@@ -198,6 +199,8 @@ class Tr:
                     return '.strFwd %s [%s]' % (q(ic[0]), ', '.join(self.expr(a) for a in ic[1].args))
             if W is not None and isinstance(e, ast.Attribute) and self.is_inner(e.value):
                 return '.attr %s' % q(e.attr)
+            if W is not None and isinstance(e, ast.Tuple) and len(e.elts) == 1 and self.is_inner(e.elts[0]):
+                return '.newargsInner'
             if W is None and isinstance(e, ast.Call) and isinstance(e.func, ast.Name) and e.func.id == 'len' and len(e.args) == 1 \
                     and not e.keywords and self.is_inner(e.args[0]):
                 return '.strLen'
